@@ -66,7 +66,8 @@ def dtc_oc_of(d):
 def _(self: "Dm1", cookie: "Dm1Cookie"):
     requires(has_key(cookie, 'cb'), self._pgn == PGN_DM01)
     opaque("ControllerApplication.send_pgn")
-    bycontract("DtcLamp.get_data")
+    # the codecs are verified in bit-vector arithmetic as units of their own; here only their contracts are used
+    bycontract("DtcLamp.get_data", "DTC.__init__")
     let("n0", len(trace))
     # loop 1: payload built so far
     invariant(1, _i1 <= len(self._dtc_dic_list), len(trace) == n0 + 1, len(self._data) == 2 + 4 * _i1,
